@@ -5,6 +5,7 @@ let run_job (job : Sx.t) : string =
   | "reg" -> Jcirc.job_reg job
   | "regalloc" -> Jcirc.job_regalloc job
   | "builder" -> Jbuilder.job_builder job
+  | "literal" -> Jlit.job_literal job
   | k -> Printf.sprintf "(unknown-kind %s)" k
 
 let () =
